@@ -74,6 +74,13 @@ AllViews(m) == [method |-> GetMethod(m), status |-> GetStatus(m), path |-> GetPa
                 pathvec |-> GetPathVec(m), obs |-> GetObserveFlag(m), cf |-> GetContentFormat(m),
                 flat |-> FlatOpts(m.opts)]
 
+(* ---- coap-message writer calls (MinimalWritableMessage / MutableWritableMessage) --------- *)
+\* payload_mut_with_len(n): the payload has exactly n bytes, kept prefix, zero filled
+Resize(pay, n) == IF n <= Len(pay) THEN Clip(pay, 1, n) ELSE pay \o Zeros(n - Len(pay))
+\* mutate_options with the callback "flip the lowest bit of the first byte of every non-empty value"
+FlipFirst(v) == IF v = << >> THEN v ELSE [v EXCEPT ![1] = IF @ % 2 = 0 THEN @ + 1 ELSE @ - 1]
+MutateOpts(opts) == [i \in 1 .. Len(opts) |-> << opts[i][1], [j \in 1 .. Len(opts[i][2]) |-> FlipFirst(opts[i][2][j])] >>]
+
 \* convenience calls on top of Message!Apply
 ApplyV(m, c) ==
   CASE c.f = "set_method"         -> SetMethod(m, c.a.name)
@@ -81,6 +88,12 @@ ApplyV(m, c) ==
     [] c.f = "set_path"           -> SetPath(m, c.a.p)
     [] c.f = "set_observe_flag"   -> SetObserveFlag(m, c.a.name)
     [] c.f = "set_content_format" -> SetContentFormat(m, c.a.name)
+    [] c.f = "t_set_code"         -> [m EXCEPT !.code = c.a.v]
+    [] c.f = "t_add_option"       -> [m EXCEPT !.opts = AddOptVal(@, c.a.num, c.a.v)]
+    [] c.f = "t_set_payload"      -> [m EXCEPT !.pay = c.a.v]
+    [] c.f = "t_payload_with_len" -> [m EXCEPT !.pay = Resize(@, c.a.n)]
+    [] c.f = "t_truncate"         -> [m EXCEPT !.pay = Clip(@, 1, Min2(c.a.n, Len(@)))]
+    [] c.f = "t_mutate_options"   -> [m EXCEPT !.opts = MutateOpts(@)]
     [] OTHER -> Apply(m, c)
 
 (* ---- C07: reply preparation ------------------------------------------------- *)
